@@ -46,6 +46,7 @@ import OxiddModel.Zbdd.DriverThreshold
 import OxiddModel.Mtbdd.DriverThreshold
 import OxiddModel.Tdd.DriverThreshold
 import OxiddModel.Dddmp.DriverHeader
+import OxiddModel.ArcSlab.Driver
 
 open OxiddModel
 
@@ -110,7 +111,8 @@ def protos : List (String × Proto) := [
   ("c14tz", OxiddModel.Zbdd.ThresholdDriver.proto),
   ("c14tm", OxiddModel.Mtbdd.ThresholdDriver.proto),
   ("c14tt", OxiddModel.Tdd.ThresholdDriver.proto),
-  ("dddmp-header", OxiddModel.Dddmp.Hdr.protoHeader)
+  ("dddmp-header", OxiddModel.Dddmp.Hdr.protoHeader),
+  ("arcslab", OxiddModel.ArcSlab.proto)
 ]
 
 def main (args : List String) : IO UInt32 := do
